@@ -99,6 +99,26 @@ func manySet(total, atOne, z int, kind string) openSet {
 	return os
 }
 
+// degenerateSets: legal statements that are degenerate in several dimensions at once (zero / constant polynomials, identity
+// commitments, every opening identical, the empty label).
+func degenerateSets() []openSet {
+	var out []openSet
+	for _, n := range []int{1, 2, 17, 300} {
+		for k, kind := range []string{"zero", "const"} {
+			os := openSet{Label: "", Shape: fmt.Sprintf("forced:degenerate:%s:%d", kind, n), Polys: []polySpec{{Kind: kind, Val: "1"}}, ShareY: (n+k)%2 == 0}
+			for i := 0; i < n; i++ {
+				o := opening{Poly: 0, Z: 0}
+				if i > 0 && i%2 == k {
+					o.Share = 1
+				}
+				os.Open = append(os.Open, o)
+			}
+			out = append(out, os)
+		}
+	}
+	return out
+}
+
 var c01Part = hx.NewPart("C01", "complete", genC01, evalC01)
 
 func TestC01(t *testing.T) {
@@ -120,6 +140,11 @@ func TestC01(t *testing.T) {
 		if hx.Thorough() || hx.Sharded(i) {
 			f.ShareY = i%2 == 1 // equal claimed values passed through one shared *fr.Element
 			c01Part.EvalCase(s, f)
+		}
+	}
+	for i, d := range degenerateSets() {
+		if hx.Thorough() || hx.Sharded(i) {
+			c01Part.EvalCase(s, d)
 		}
 	}
 	c01Part.Run(s, hx.PerShard(hx.Pick(1600, 64000)))
@@ -410,6 +435,11 @@ func TestC03(t *testing.T) {
 		dup := openSet{Label: "dup", Shape: "forced:adjacent_duplicates", Polys: []polySpec{{Kind: "dense", Seed: uint64(hx.Seed())}, {Kind: "ramp", Seed: 3}},
 			Open: []opening{{Poly: 0, Z: 5}, {Poly: 0, Z: 5}, {Poly: 1, Z: 5}, {Poly: 0, Z: 5, Share: 1}, {Poly: 0, Z: 5, Rep: 3, Lambda: 9}, {Poly: 1, Z: 6}, {Poly: 1, Z: 6}}}
 		c03Multi.EvalCase(s, c03Case{Set: dup, Rep2: 1})
+	}
+	for i, d := range degenerateSets() {
+		if hx.Thorough() || hx.Sharded(i+5) {
+			c03Multi.EvalCase(s, c03Case{Set: d, Rep2: i % 4})
+		}
 	}
 	c03Multi.Run(s, hx.PerShard(hx.Pick(480, 12800)))
 	c03IPA.Run(s, hx.PerShard(hx.Pick(160, 4800)))
